@@ -69,7 +69,7 @@ def _make_resource(r, idx, kind, classes, calls):
     component_ns, component_names = {}, []
     for j, cls in enumerate(chosen):
         style = r.choice(["class", "string"])
-        mname = "%s_%d_%s" % (r.choice(["a", "m", "z", "on", "handle"]), j, cls.__name__.lower())
+        mname = "%s_%d_%s" % (r.choice(["a", "m", "z", "on", "handle", "_on", "_private", "__mangled"]), j, cls.__name__.lower())
         ann = cls if style == "class" else cls.__name__
         h = _handler(kind, mname, ann, calls, tok)
         how = r.choice(["instance", "instance", "instance", "classmethod", "component"])
@@ -97,6 +97,7 @@ def _make_resource(r, idx, kind, classes, calls):
 
 UNKNOWN = "?"
 RAISE = [None]               # the exception object the next invoked handler raises (after recording the call)
+REENTER = [None]             # a callable the next invoked handler runs from inside (re-entrant use of the dispatcher)
 
 
 def _handler(kind, mname, ann, calls, tok):
@@ -104,6 +105,9 @@ def _handler(kind, mname, ann, calls, tok):
     if kind == "server":
         def h(self, client, seqnum, msg):
             calls.append((tok[0], mname, (client, seqnum, msg)))
+            if REENTER[0] is not None:
+                fn_, REENTER[0] = REENTER[0], None
+                fn_()
             if RAISE[0] is not None:
                 raise RAISE[0]
         h.__annotations__ = {"msg": ann}
@@ -112,6 +116,9 @@ def _handler(kind, mname, ann, calls, tok):
 
     def h(self, seqnum, msg):
         calls.append((tok[0], mname, (seqnum, msg)))
+        if REENTER[0] is not None:
+            fn_, REENTER[0] = REENTER[0], None
+            fn_()
         if RAISE[0] is not None:
             raise RAISE[0]
     h.__annotations__ = {"msg": ann}
@@ -150,6 +157,41 @@ def run_case(r, kind, counters, trace):
         if r.random() < 0.12:
             boom = r.choice([KeyError, LookupError, ValueError, RuntimeError, AttributeError, IndexError, TypeError])("raised by the handler: " + name)
         RAISE[0] = boom
+        # sometimes the handler uses the dispatcher from inside: it unregisters ANOTHER resource and dispatches one of that
+        # resource's classes (nothing may answer), registers it again and dispatches again (its handler answers) - what register and
+        # unregister did is in force at once, also in the middle of a dispatch
+        inner = None
+        if boom is None and name in model and name not in unknown and r.random() < 0.1:
+            owner0 = model[name][0]
+            cands = [res for res in resources if res._idx != owner0 and getattr(res, "_handled", None)
+                     and all(n2 in model and model[n2][0] == res._idx and n2 not in unknown for n2, m2, s2 in res._handled)]
+            if cands:
+                res2 = r.choice(cands)
+                name2, mname2, _s2 = res2._handled[0]
+                cls2 = [k for k in classes if k.__name__ == name2][0]
+                from mpgameserver import SeqNum as _SN
+                args2 = (object(), _SN(9), cls2()) if kind == "server" else (_SN(9), cls2())
+                inner = {"res": res2._idx, "name": name2, "mname": mname2}
+
+                def reenter():
+                    try:
+                        disp.unregister(res2)
+                        n0 = len(calls)
+                        try:
+                            disp.dispatch(*args2)
+                            inner["after_unregister"] = "called %s" % calls[n0][1] if len(calls) > n0 else "nothing happened"
+                        except D.DispatchError:
+                            inner["after_unregister"] = "error" if len(calls) == n0 else "called %s and error" % calls[n0][1]
+                        disp.register(res2)
+                        n1 = len(calls)
+                        try:
+                            disp.dispatch(*args2)
+                            inner["after_register"] = calls[n1][1] if len(calls) > n1 else "nothing happened"
+                        except D.DispatchError:
+                            inner["after_register"] = "error"
+                    except Exception as e_:
+                        inner["exc"] = repr(e_)
+                REENTER[0] = reenter
         try:
             disp.dispatch(*args)
         except D.DispatchError as e:
@@ -160,7 +202,14 @@ def run_case(r, kind, counters, trace):
                 return viol("dispatch-raised-other", "dispatch(%s) raised %r" % (name, e))
         finally:
             RAISE[0] = None
+            REENTER[0] = None
         counters.inc("dispatch")
+        if inner is not None and "after_unregister" in inner or inner is not None and "exc" in inner:
+            counters.inc("reentrant_dispatches")
+            if inner.get("exc") or inner.get("after_unregister") != "error" or inner.get("after_register") != inner["mname"]:
+                return viol("reentrant-use-not-in-force", "from inside a handler: unregister(Res%d) then dispatch(%s) -> %s (expected DispatchError); register(Res%d) then dispatch -> %s (expected %s)%s" % (
+                    inner["res"], inner["name"], inner.get("after_unregister"), inner["res"], inner.get("after_register"), inner["mname"], (" raised " + inner["exc"]) if inner.get("exc") else ""))
+            del calls[1:]            # the outer call is judged below as always
         if boom is not None and calls:
             counters.inc("dispatch_with_raising_handler")
             if err is not None:
@@ -422,7 +471,7 @@ def run_shard(cfg):
 def finish(tier, seed, results):
     m = merge(results)
     inconclusive = []
-    need(m["counters"], ["sole_owner_dispatch_ok", "dispatch_with_raising_handler", "dispatch_registered_ok", "dispatch_unregistered_ok", "duplicate_register",
+    need(m["counters"], ["sole_owner_dispatch_ok", "dispatch_with_raising_handler", "reentrant_dispatches", "dispatch_registered_ok", "dispatch_unregistered_ok", "duplicate_register",
                          "unregister", "register"], inconclusive)
     cov = {
         "evaluations": m["evaluations"],
